@@ -421,6 +421,11 @@ class P:
             a = ("null",)
         elif re.fullmatch(r"\d+", tok):
             a = ("num", int(tok))
+        elif tok == "operator" and self.peek() == "==" and self.peek(1) == "(":
+            self.eat(); self.eat("(")
+            b = self.expr()
+            self.eat(")")
+            a = ("bin", "==", ("id", "operator"), b)          # `operator==(other)`
         elif IDENT.match(tok):
             if self.peek() == "(":
                 self.eat("(")
@@ -626,6 +631,15 @@ class Tr:
             return self.call(e, env, ind, k)
         if kind == "dot" and e[2] == "item" and e[1][0] == "call":
             return self.ev(e[1], env, ind, k)              # the pointer the returned iterator holds
+        if kind == "bin" and e[1] == "==" and e[3] == ("id", "other") and e[2] in (("deref", ("id", "this")), ("id", "operator")) \
+                and self.spec.get("other") is True:
+            # `*this == other` / `operator==(other)`: the translated `operator==`
+            spec = self.gen.specs[self.cls].get("equal")
+            if spec is None or not spec.get("done"):
+                self.refuse("`*this == other` before the translation of `operator==`")
+            r = self.fresh("r")
+            return ([f"{ind}match equal h t o with", f"{ind}| none => none", f"{ind}| some (t, {r}) =>"] +
+                    k(r, "bool", self.wr(env), ind + "  "))
         if kind == "bin" and e[1] in ("==", "!="):
             def after_a(ta, tya, env2, ind2):
                 def after_b(tb, tyb, env3, ind3):
@@ -1447,6 +1461,8 @@ def specs_for(cls):
     if cls != "PoolMap":
         s["assign"] = {"lean": "assign", "rx": cls + r"\s*&\s*operator\s*=\s*\(\s*const\s+" + cls + r"\s*&\s*other\s*\)",
                        "params": [], "ret": None, "other": True}
+        s["notEqual"] = {"lean": "notEqual", "rx": r"bool\s+operator\s*!=\s*\(\s*const\s+" + cls + r"\s*&\s*other\s*\)",
+                         "params": [], "ret": "bool", "other": True}
         s["equal"] = {"lean": "equal", "rx": r"bool\s+operator\s*==\s*\(\s*const\s+" + cls + r"\s*&\s*other\s*\)",
                       "params": [], "ret": "bool", "other": True}
     if cls == "HashSet":
@@ -1505,7 +1521,7 @@ CTORS = {"constructDefault": (r"(?<![\w~])CLS\s*\(\s*\)\s*:", []),
 
 
 ORDER = ["find", "removeValue", "removeIt", "removeKey", "removeFront", "removeBack", "insert", "clear", "appendAll",
-         "removeAll", "assign", "equal", "appendSelf", "removeSelf", "assignSelf", "size", "isEmpty", "contains", "front", "back", "append", "prepend"]
+         "removeAll", "assign", "equal", "notEqual", "appendSelf", "removeSelf", "assignSelf", "size", "isEmpty", "contains", "front", "back", "append", "prepend"]
 
 
 class Gen:
